@@ -97,7 +97,8 @@ func HarnessC20Installer() {
 	// a package installed from a source that is no valid image reference (a
 	// preloaded package file, pull policy Never) may be listed before the others
 	extra := 0
-	if nExisting > 0 && zz.Bool("preloaded.package.listed.first") {
+	// (thorough tier: next to one installed package only - with two the product exceeds the path budget)
+	if nExisting > 0 && (zz.Tier() != "thorough" || nExisting == 1) && zz.Bool("preloaded.package.listed.first") {
 		zz.Cover("unparsable-source")
 		extra = 1
 		switch pkgKind {
